@@ -241,6 +241,18 @@ type ManualSrc struct {
 	dmu   sync.Mutex
 	dests []*manualDest
 	seq   int32
+	// ItemCtxOver: values travel with a context that is already cancelled (derived
+	// from the subscription context, the item marker still attached).
+	ItemCtxOver bool
+}
+
+func overCtx(ctx context.Context) context.Context {
+	if ctx == nil {
+		return nil
+	}
+	c, cancel := context.WithCancel(ctx)
+	cancel()
+	return c
 }
 
 type manualDest struct {
@@ -286,6 +298,10 @@ func (m *ManualSrc) Emit(e Ev) int {
 			continue
 		}
 		n++
+		if m.ItemCtxOver && e.K == 'N' {
+			emit(overCtx(md.ctx), md.d, i, e)
+			continue
+		}
 		emit(md.ctx, md.d, i, e)
 	}
 	if n == 0 {
